@@ -6,7 +6,7 @@ use crate::xtypes::{
     type_object::TypeIdentifier,
     type_support::TypeSupport,
 };
-use alloc::{string::ToString, vec::Vec};
+use alloc::vec::Vec;
 
 type RepresentationIdentifier = [u8; 2];
 const CDR_BE: RepresentationIdentifier = [0x00, 0x00];
@@ -211,7 +211,9 @@ impl<'a, E: EndiannessWrite, V: EncodingVersion> XTypesSerializer<'a, E, V> {
             TypeKind::FLOAT128 => self.serialize_primitive_type(v.get_float128_value(member_id)?),
             TypeKind::INT8 => self.serialize_primitive_type(v.get_int8_value(member_id)?),
             TypeKind::UINT8 => self.serialize_primitive_type(v.get_uint8_value(member_id)?),
-            TypeKind::CHAR8 => self.serialize_primitive_type(v.get_char8_value(member_id)?),
+            TypeKind::CHAR8 => {
+                self.serialize_primitive_type(&char8_to_byte(*v.get_char8_value(member_id)?)?)
+            }
             TypeKind::CHAR16 => todo!(),
             TypeKind::STRING8 => self.serialize_string_type(v.get_string_value(member_id)?),
             TypeKind::STRING16 => self.serialize_wstring_type(v.get_string_value(member_id)?),
@@ -268,7 +270,11 @@ impl<'a, E: EndiannessWrite, V: EncodingVersion> XTypesSerializer<'a, E, V> {
             }
             TypeKind::INT8 => serialize_primitive_slice(self, v.get_int8_values(member_id)?),
             TypeKind::UINT8 => self.writer.write_slice(v.get_uint8_values(member_id)?),
-            TypeKind::CHAR8 => serialize_primitive_slice(self, v.get_char8_values(member_id)?),
+            TypeKind::CHAR8 => {
+                for c in v.get_char8_values(member_id)? {
+                    self.serialize_primitive_type(&char8_to_byte(*c)?);
+                }
+            }
             TypeKind::CHAR16 => todo!(),
             TypeKind::STRING8 => {
                 for v in v.get_string_values(member_id)? {
@@ -625,6 +631,12 @@ impl<'a, 'b, E: EndiannessWrite, V: EncodingVersion> EMheader1<'a, 'b, E, V> {
     }
 }
 
+/// A char8 is serialized as exactly one byte holding its code point (the reader maps the
+/// byte back with `char::from`), so characters above U+00FF have no char8 representation
+fn char8_to_byte(v: char) -> XTypesResult<u8> {
+    u8::try_from(v).map_err(|_| XTypesError::InvalidData)
+}
+
 fn is_element_type_kind_primitive(member_descriptor: &MemberDescriptor) -> XTypesResult<bool> {
     Ok(matches!(
         member_descriptor
@@ -834,7 +846,7 @@ impl EncodingVersion for EncodingVersion1 {
         let ssize = Ssize::new(serializer);
         ssize.serializer.push_origin_0();
         if v.get_value(member_id).is_ok() {
-            ssize.serializer.serialize_value(v, member_id).unwrap();
+            ssize.serializer.serialize_value(v, member_id)?;
         }
         ssize.write_ssize();
         Ok(())
@@ -1012,7 +1024,7 @@ impl EncodingVersion for EncodingVersion2 {
         member_id: u32,
     ) -> Result<(), XTypesError> {
         let emheader = EMheader1::new(serializer);
-        emheader.serializer.serialize_value(v, member_id).unwrap();
+        emheader.serializer.serialize_value(v, member_id)?;
         emheader.write_header(member_id, v)?;
         Ok(())
     }
@@ -1096,9 +1108,6 @@ impl Ossize for f64 {
 impl Ossize for bool {
     const SSIZE: usize = 1;
 }
-impl Ossize for char {
-    const SSIZE: usize = 1;
-}
 
 trait AsBytes {
     fn as_bytes<'a, E: EndiannessWrite>(&self, writer: &mut CdrWriter<'a>);
@@ -1161,11 +1170,6 @@ impl AsBytes for f32 {
 impl AsBytes for f64 {
     fn as_bytes<'a, E: EndiannessWrite>(&self, writer: &mut CdrWriter<'a>) {
         writer.write_slice(&E::to_bytes_f64(*self));
-    }
-}
-impl AsBytes for char {
-    fn as_bytes<'a, E>(&self, writer: &mut CdrWriter<'a>) {
-        writer.write_slice(self.to_string().as_bytes());
     }
 }
 
